@@ -26,6 +26,7 @@ def run(ctx):
     r_len(ctx, P)
     header_derivation(ctx, P)
     mutators(ctx, P)
+    stored_length_encoding(ctx, P)
     s2k_usage_tables(ctx, P)
     tag_tables(ctx, P)
     opaque_layout(ctx, P)
@@ -139,6 +140,25 @@ def mutators(ctx, P):
         ok1, _ = must_pass(b, oks, vm) if vm else (False, None)
         ok2, _ = must_pass(b, oks, [i for i, _, _ in adj]) if adj else (False, None)
         ctx.check('%s:S05-3:paired:%s' % (P, nm), 'R-pair', 'every successful %s both mutates the vector and adjusts the length' % nm, ok1 and ok2, function=b.path)
+
+
+def stored_length_encoding(ctx, P):
+    """Objects that keep the length encoding they were read with (Subpacket.len, UserAttribute.subpacket_len) write that stored
+    value back: in every arm of to_writer the length prefix written derives from the stored field, never from a fresh
+    SubpacketLength::encode()."""
+    for path, fld in (('<packet::user_attribute::UserAttribute as ser::Serialize>::to_writer', r'field:UserAttribute::(Image|Unknown)\.subpacket_len$'),
+                      ('<packet::signature::subpacket::Subpacket as ser::Serialize>::to_writer', r'field:Subpacket\.len$')):
+        b = ctx.body(path)
+        if b is None:
+            continue
+        lw = [(i, t) for i, t in b.calls(r'ser::Serialize::to_writer$') if 'SubpacketLength' in t['f'].get('selfty', '')]
+        good = bool(lw) and all(has_origin(b.operand_origins(t['args'][0]), fld) for i, t in lw)
+        fresh = b.calls(r'SubpacketLength::encode$')
+        oks = ok_exit_blocks(b)
+        every, _ = must_pass(b, oks, [i for i, t in lw]) if lw else (False, None)
+        ctx.check('%s:S05-7:stored-length-encoding:%s' % (P, path.split(' as ')[0].split('::')[-1]), 'origin',
+                  'the length prefix written by %s is the stored (original) encoding on every path, not a re-encoded one' % path.split(' as ')[0].split('::')[-1],
+                  good and not fresh and every, function=path, missing='SubpacketLength::encode() used in the writer' if fresh else None)
 
 
 def tag_tables(ctx, P):
